@@ -133,6 +133,119 @@ def decl_pairs(tier):
     return out
 
 
+def rule_valid(base, f):
+    """C09's acceptance rule, implemented on the model (independent of the macro's parser)"""
+    from corpus import fwidth, fcount, fpositions
+    for lo, hi in f["ranges"]:
+        if lo > hi:
+            return False
+    w = sum(hi - lo + 1 for lo, hi in f["ranges"])
+    ty = f["ty"]
+    if ty["k"] == "bool":
+        if w != 1:
+            return False
+    elif ty["w"] != w:
+        return False
+    a = f["array"]
+    if a:
+        if a["k"] < 2:
+            return False
+        if len(f["ranges"]) == 1 and not f.get("force_list"):
+            if a["stride"] is not None and a["stride"] < w:
+                return False
+        elif a["stride"] is None:
+            return False
+    top = 0
+    for i in range(fcount(f)):
+        top = max(top, max(fpositions(f, i)))
+    return top < base
+
+
+def rnd_pairs(tier, seed):
+    """random rule-valid single-field declarations (same generator as the RND family, plain types only), each
+    broken by exactly one randomly chosen rule violation; the unbroken original is the compiling twin"""
+    import copy
+    import random
+    from corpus import rnd_tools, h, fwidth, fcount, fpositions
+    rnd = random.Random(h("negrnd", seed, tier))
+    tools = rnd_tools(rnd, "negrnd", simple=True)
+    out = []
+    want = 120 if tier == "quick" else 900
+    tries = 0
+    while len(out) < want and tries < want * 30:
+        tries += 1
+        r = rnd.random()
+        base = rnd.choice([8, 16, 32, 64, 128]) if r < 0.5 else rnd.choice([3, 5, 7, 9, 12, 15, 17, 24, 31, 33, 48, 63, 65, 100, 127])
+        good = tools["free_field"](base, "x")
+        good["access"] = rnd.choice(["rw", "r", "w"])
+        if not rule_valid(base, good):
+            continue
+        if not good["array"] and rnd.random() < 0.45:
+            continue  # (half of the witnesses should be arrays: most rules are about them)
+        bad = copy.deepcopy(good)
+        w = fwidth(good)
+        muts = ["wider", "narrower", "bounds"]
+        if good["array"]:
+            muts += ["k1", "k0", "bounds"]
+            if len(good["ranges"]) == 1 and not good.get("force_list") and w >= 2:
+                muts.append("stride_small")
+            if len(good["ranges"]) > 1:
+                muts.append("stride_missing")
+        if any(hi > lo for lo, hi in good["ranges"]):
+            muts.append("reversed")
+        m = rnd.choice(muts)
+        k = good["ty"]["k"]
+        if m in ("wider", "narrower"):
+            if k == "uint":
+                nw = w + 1 if m == "wider" else w - 1
+                if nw < 1 or nw > 128:
+                    continue
+                bad["ty"] = T_uint(nw)
+            else:
+                # bool / iN: the type's width is fixed, so change the number of selected bits instead
+                ri = rnd.randrange(len(bad["ranges"]))
+                lo, hi = bad["ranges"][ri]
+                if m == "wider":
+                    if hi == lo:
+                        continue
+                    bad["ranges"][ri] = [lo, hi - 1]
+                else:
+                    bad["ranges"][ri] = [lo, hi + 1]
+                pos = [p for i in range(fcount(bad)) for p in fpositions(bad, i)]
+                if max(pos) >= base or len(set(fpositions(bad, 0))) != len(fpositions(bad, 0)):
+                    continue
+        elif m == "bounds":
+            top = max(p for i in range(fcount(good)) for p in fpositions(good, i))
+            sh = base - top  # the highest addressed bit becomes exactly `base`
+            bad["ranges"] = [[lo + sh, hi + sh] for lo, hi in bad["ranges"]]
+        elif m == "k1":
+            bad["array"]["k"] = 1
+        elif m == "k0":
+            bad["array"]["k"] = 0
+        elif m == "stride_small":
+            bad["array"]["stride"] = rnd.choice([w - 1, 1, 0]) if w >= 2 else 0
+            if bad["array"]["stride"] >= w:
+                continue
+        elif m == "stride_missing":
+            bad["array"]["stride"] = None
+        elif m == "reversed":
+            cand = [i for i, (lo, hi) in enumerate(bad["ranges"]) if hi > lo]
+            ri = rnd.choice(cand)
+            lo, hi = bad["ranges"][ri]
+            bad["ranges"][ri] = [hi, lo]
+        if bad["array"] and bad["array"]["k"] == 0:
+            pass
+        else:
+            try:
+                if rule_valid(base, bad):
+                    continue
+            except ValueError:
+                pass
+        # a reversed range makes fpositions empty for that range; the oracle above already said "invalid"
+        out.append(("random: %s" % m, 100000 + len(out), base, [bad], [good]))
+    return out
+
+
 def enum_cases(tier):
     """(clause, lines or enum model, valid twin enum model or None)"""
     out = []
@@ -451,7 +564,9 @@ def build_negative(tier, seed):
     # ---- declarations (C09)
     neg = Crate("neg_decl_0", kind="neg")
     twin = Crate("pos_twin_0", kind="pos")
-    for (clause, n, base, bad, good) in decl_pairs(tier):
+    import os
+    pairs = decl_pairs(tier) + rnd_pairs(tier, seed)
+    for (clause, n, base, bad, good) in pairs:
         mod = "d%d" % n
         neg.add(neg_struct(mod, "W", base, bad, "C09", clause))
         s = struct(mod, "W", base, good, family="TWIN")
